@@ -24,6 +24,7 @@ import (
 	"fmt"
 	"math/rand"
 	"sort"
+	"strings"
 	"testing"
 
 	"verifharness/kit"
@@ -148,6 +149,49 @@ func (f *forest) inclTrue(h H, i, n uint64, R H) bool {
 		}
 	}
 	return cur == h
+}
+
+// auditPath: the sibling hashes (leaf-to-root) met when walking from R along the RFC 6962 turn
+// sequence of (i, n) in the reference DAG; ok=false if the walk leaves the DAG. For a true claim
+// (h,i,n,R) this list is THE audit path: a verifier that binds every submitted hash to the root can,
+// under collision resistance, accept no other list (in particular no longer one).
+func (f *forest) auditPath(i, n uint64, R H) ([]H, bool) {
+	if i >= n {
+		return nil, false
+	}
+	var topDown []H
+	cur := R
+	for n > 1 {
+		ch, ok := f.children[cur]
+		if !ok {
+			return nil, false
+		}
+		k := pow2below(n)
+		if i < k {
+			topDown = append(topDown, ch[1])
+			cur, n = ch[0], k
+		} else {
+			topDown = append(topDown, ch[0])
+			cur, i, n = ch[1], i-k, n-k
+		}
+	}
+	out := make([]H, len(topDown))
+	for j := range topDown {
+		out[len(topDown)-1-j] = topDown[j]
+	}
+	return out, true
+}
+
+func sameList(a, b []H) bool {
+	if len(a) != len(b) {
+		return false
+	}
+	for i := range a {
+		if a[i] != b[i] {
+			return false
+		}
+	}
+	return true
 }
 
 // prefixRoot = hash of the first m leaves of the n-leaf tree rooted at R (0 < m <= n).
@@ -399,6 +443,15 @@ func (c *ctx) mutateList(p []H) []listMut {
 	out = append(out, listMut{"append-random", append(cp(), c.randHash())})
 	out = append(out, listMut{"append-known", append(cp(), c.knownHash())})
 	out = append(out, listMut{"prepend-known", append([]H{c.knownHash()}, p...)})
+	many := cp()
+	for j, k := 0, 2+c.rng.Intn(7); j < k; j++ {
+		if c.rng.Intn(2) == 0 {
+			many = append(many, c.randHash())
+		} else {
+			many = append(many, c.knownHash())
+		}
+	}
+	out = append(out, listMut{"append-many", many})
 	if len(p) > 0 {
 		out = append(out, listMut{"append-own-last", append(cp(), p[len(p)-1])})
 		out = append(out, listMut{"empty", nil})
@@ -436,11 +489,21 @@ func (c *ctx) tryIncl(kind, mut string, cl inclClaim, honest bool) {
 		if !truth {
 			r.Inconclusive("oracle self-check failed: honest inclusion claim judged false")
 		}
+		if ap, ok := c.f.auditPath(uint64(cl.i), uint64(cl.n), cl.root); !ok || !sameList(ap, cl.p) {
+			r.Inconclusive("oracle self-check failed: honest inclusion proof is not the reference audit path")
+		}
 		return
 	}
+	surplus := strings.HasPrefix(mut, "proof:append") || strings.HasPrefix(mut, "proof:prepend")
 	if err == nil {
 		if truth {
 			r.Count("incl_mutant_accepted_true", 1)
+			// second oracle: the accepted proof must be exactly the audit path of that claim
+			if ap, ok := c.f.auditPath(uint64(cl.i), uint64(cl.n), cl.root); ok && sameList(ap, cl.p) {
+				r.Count("incl_accepted_proof_is_the_audit_path", 1)
+			} else {
+				c.violation("inclusion-proof-accepts-foreign-elements", fmt.Sprintf("mut=%s: VerifyLeafHashInclusion accepted a proof of %d hashes for leaf_hash=%x i=%d n=%d root=%x whose audit path has %d hashes / other hashes", mut, len(cl.p), cl.lh, cl.i, cl.n, cl.root, len(ap)), c.inclReplay(mut, cl))
+			}
 		} else {
 			c.violation("inclusion-accepts-false-claim:"+mut, fmt.Sprintf("mut=%s leaf_hash=%x i=%d n=%d root=%x proof_len=%d", mut, cl.lh, cl.i, cl.n, cl.root, len(cl.p)), c.inclReplay(mut, cl))
 		}
@@ -448,6 +511,12 @@ func (c *ctx) tryIncl(kind, mut string, cl inclClaim, honest bool) {
 		r.Count("incl_mutant_rejected", 1)
 		if !truth {
 			r.Count("incl_false_claims_rejected", 1)
+		}
+		if surplus && truth {
+			r.Count("incl_true_claim_with_surplus_hashes_rejected", 1)
+			if cl.n == 1 {
+				r.Count("incl_one_leaf_tree_nonempty_proof_rejected", 1)
+			}
 		}
 	}
 }
@@ -984,6 +1053,7 @@ func TestC07(t *testing.T) {
 	r.Rule("reference forest of N leaves (random 32-byte leaves, duplicates, empty and long values, leaves whose data is left||right / 0x01||left||right of real hashes); honest RFC 6962 audit paths, leaf-path proofs and consistency proofs generated by the checker for the FULL (i,n) and (m,n) grids; each honest proof is verified, then every single mutation (per element: bit flip, drop, duplicate, replace by a known node, swap; append/prepend/empty/reverse; flag toggle / other flag values; index, size, leaf, root replaced by neighbours, other sizes' values, random, zero; trailing / truncated bytes; length-prefix shifts), 6 random multi-mutations, second-preimage attempts (interior node as leaf at every complete level, leaf as interior node) is verified with the node's verifier and every ACCEPTED claim is judged true/false in the reference hash DAG; distinct = (api, mutation, indices, proof length, verdict)")
 	r.Assume("SHA-256 (Go standard library) is collision resistant: the reference forest holds the only known preimages, so the truth of a claim is its truth in that hash DAG")
 	r.Assume("hash-level inclusion claim (h,i,n,R) means: the node reached from R by the RFC 6962 turn sequence of (i,n) is h — an inclusion proof cannot bind more than that (e.g. leaf 0 of 3 is also accepted as leaf 0 of 4 by any RFC 6962 verifier), so such acceptances are not violations")
+	r.Assume("inclusion proofs (VerifyLeafHashInclusion) are additionally required to be exactly the audit path of the accepted claim (the sibling hashes met from the root along the turn sequence of (i,n)): surplus or foreign hashes that the verifier does not bind to the root do not correspond to the claim. Not applied to VerifyConsistency, whose documented shortcuts (old_size == 0, identical trees) ignore the proof")
 	r.Assume("path proofs (MerkleProve) are additionally required to consist of exactly the sibling hashes between the accepted leaf and the given root (sides / flag bytes not compared): a verifier that binds every submitted element to the root cannot accept anything else, and a path padded with unbound elements does not correspond to the claimed leaf and root")
 	r.Assume("consistency with old_size == 0 is vacuously true whatever the roots (DESIGN §8); MerkleProve reading flag bytes != 0 as RIGHT and ignoring < 33 trailing bytes is malleability, not unsoundness, when the accepted claim is true")
 	N := r.N(64, 320)
@@ -1055,6 +1125,9 @@ func TestC07(t *testing.T) {
 	r.Require("path_honest_accepted", pairs)
 	r.Require("cons_honest_accepted", pairs)
 	r.Require("incl_mutant_rejected", pairs*10)
+	r.Require("incl_true_claim_with_surplus_hashes_rejected", pairs*3)
+	r.Require("incl_one_leaf_tree_nonempty_proof_rejected", 3)
+	r.Require("incl_accepted_proof_is_the_audit_path", pairs/4)
 	r.Require("incl_false_claims_rejected", pairs*10)
 	r.Require("path_mutant_rejected", pairs*10)
 	r.Require("path_inserted_high_flag_elements_rejected", pairs*2)
